@@ -565,6 +565,9 @@ def c08(ctx):
 def c13(ctx):
     acc = Acc()
     c13_front(ctx, acc)
+    # the options as a state machine of their own, driven through the public RunOptions::update (every history of
+    # up to MaxLen updates over -depth and 8 thread counts, state compared after each step) + the file-type table
+    g_tree(ctx, acc, 'c13opts', 'MC_Options', 'SPECIFICATION Spec\nCONSTANT MaxLen = %d\nINVARIANT InvLast\nINVARIANT InvTypes\nINVARIANT EmitVector\nINVARIANT EmitTypes\nPROPERTY DepthSticks\nPROPERTY OwnField\nCHECK_DEADLOCK FALSE\n' % pick(ctx, 4, 5))
     t_sem(ctx, acc, 'c13threads', ['--count', str(pick(ctx, 200, 3000)), '--seed', str(ctx.seed), '--size', '4', '--profile', 'c09', '--threads'], {'threads-mismatch', 'compile-panic', 'malformed-program', 'no-scan-call'},
           consts='CONSTANT MaxFiles = 1\nCONSTANT Static = FALSE\n')
     r = result('model_checking', acc, True,
